@@ -85,7 +85,9 @@ def fam_term(fam, lazy):
                 if m in MIXIN_FMTS:
                     u, p = MIXIN_FMTS[m]
                     fmts.append(f"({FMT_ID[u]}, {FMT_ID[p]})")
-        fields = [f"(FD {t[1]} {spec_id(t[3])})" for _, t in F.all_fields(fam, i) if t[0] == "dc"]
+        ghost = len(fam["classes"])      # a class id that is never defined: its name is never bound
+        fields = [f"(FD {t[1]} {spec_id(t[3])})" if t[0] == "dc" else f"(FD {ghost} 0)"
+                  for _, t in F.all_fields(fam, i) if t[0] in ("dc", "ghost")]
         out.append(f"(CD {b(lazy[i] and c['kind'] == 'mixin')} {b(c['dsup'])} [{'; '.join(fmts)}] [{'; '.join(fields)}])")
     return "[" + "; ".join(out) + "]"
 
@@ -112,6 +114,8 @@ def outcome_kind(out, aux_rec=None):
     re-dispatch, 4 RecursionError in nested compilation, None = an outcome the model does not talk about"""
     if out[0] == "OK":
         return 0
+    if "UnresolvedTypeReferenceError" in (out[1], out[3] if len(out) > 3 else "") or (len(out) > 4 and "unresolved type reference" in out[4]):
+        return 5
     if out[1] == "RecursionError":
         return {"redispatch": 3, "build-cycle": 4}.get(aux_rec)
     if len(out) > 4 and out[3] == "AttributeError":
@@ -127,8 +131,14 @@ def case_term(case, d5=True):
     fam = case["fam"]
     snaps = case["snaps"]
     steps = []
+    from harness.props.c14 import selfref_dialect_gap
     for (k, op, got, exp, sig), meta, snap in zip(case["res"], case["opmeta"], snaps[1:]):
         if not meta["valid"]:
+            break
+        if any(c["parent"] is not None for c in fam["classes"]) and selfref_dialect_gap(fam, snap):
+            # known finding C14/dialect-first-call-on-self-referencing-class in a family with inheritance: the real
+            # call may resolve through the MRO to an ancestor's method; the model has no MRO - the history is
+            # compared up to the operation that creates this configuration
             break
         kind = outcome_kind(got, case.get("rec", {}).get(k))
         if kind is None:
@@ -147,7 +157,7 @@ def case_term(case, d5=True):
 
 THEOREMS = ["C14_reachable_wf", "C14_call_state_independent", "C14_history_partial", "C14_history_refuted",
             "C14_first_call_terminates", "C14_lazy_dialect_diverges", "C14_lazy_specialisation_diverges",
-            "C14_dialect_first_raises", "C14_build_cycle_diverges", "C14_schedules_partial"]
+            "C14_no_cache_attribute_error", "C14_dialect_first_selfref_raises", "C14_build_cycle_diverges", "C14_schedules_partial"]
 
 
 def theorems(ctx):
@@ -195,15 +205,8 @@ def spec_key_tie(ctx):
 
 def correspondence(ctx, cases, limit=None):
     terms, srcs, nsteps = [], [], 0
-    from harness.props.c14 import has_dsup_gap
-    skipped = 0
     for case in cases:
         if "snaps" not in case or not case["snaps"]:
-            continue
-        if has_dsup_gap(case["fam"]):
-            # the model has no MRO: a subclass without ADD_DIALECT_SUPPORT of a class with it shares the parent's
-            # cache dicts in the real classes (known finding C14/dialect-cache-inherited-by-subclass)
-            skipped += 1
             continue
         try:
             t, n = case_term(case)
@@ -232,6 +235,5 @@ def correspondence(ctx, cases, limit=None):
         ctx.not_shown("correspondence " + name, detail)
     ctx.correspondence(name, len(terms), len(bad), detail or f"{nsteps} compared states")
     ctx.hist("correspondence", "histories", len(terms))
-    ctx.hist("correspondence", "skipped: subclass without dialect support of a class with it", skipped)
     ctx.hist("correspondence", "states", nsteps)
     return not bad
